@@ -119,7 +119,7 @@ for k in range(7):
     OBS[f"symbolmap_add_s{k}"] = dict(kind="bounded", bound=BS, functions=["SymbolMap::new", "SymbolMap::add", "SymbolMap::get", "FreeList::pop_next_free", "FreeList::add_shadowed"],
                                       contract="after add(id)->r: get(id)==r, values[r]==id, every other binding unchanged and != r (a live binding's slot is never handed out), a redefinition takes a different slot and queues the old one as shadowed, wf(map)")
 OBS.update({
-    "symbolmap_rollback_fresh_names": dict(kind="bounded", bound="6 histories", functions=["SymbolMap::roll_back", "SymbolMap::add"],
+    "symbolmap_rollback_fresh_names": dict(kind="bounded", bound="7 histories", functions=["SymbolMap::roll_back", "SymbolMap::add"],
                                            contract="a failed compilation that only defined fresh names with an empty free list is undone exactly: every earlier binding as before, the new names unbound"),
     "symbolmap_rollback_redefinition": dict(kind="known", bound="1 history", functions=["SymbolMap::roll_back", "SymbolMap::add"],
                                             contract="same, when the failed compilation redefined an existing name"),
@@ -131,6 +131,7 @@ OBS.update({
                                           contract="for every opcode x every 24-bit payload x header None/Some(op): if the instruction the closure will execute uses its payload as a global index, that slot is removed from the candidate set; otherwise it stays; captured closures are queued"),
     "visit_closure_three_instructions": dict(kind="bounded", bound="3 instructions, first one possibly JIT-trampolined", functions=["GlobalSlotRecycler::visit_closure"],
                                              contract="same for every position of a 3-instruction body"),
+    "recycle_resets_heap_marks": dict(kind="proof", functions=["GlobalSlotRecycler::recycle"], contract="both heap free lists are reset (mark_all_unreachable) before the walk and recounted after it"),
     "push_back_contract": dict(kind="proof", functions=["GlobalSlotRecycler::push_back"], contract="closures are always queued; leaf values never"),
     **{n: dict(kind="bounded", tier="thorough", bound="one concrete global table of 3 slots", functions=["GlobalSlotRecycler::recycle", "GlobalSlotRecycler::visit_closure", "GlobalSlotRecycler::push_back"],
                contract="only shadowed slots are freed, each once, their root cleared; a slot that live code refers to is never freed")
@@ -154,7 +155,7 @@ def run_unit(scratch, tier):
         if o.status == "failed" and o.kind in ("proof", "bounded"):
             o.output = out[-6000:]
             nplay += 1
-            if nplay <= 2:
+            if nplay <= 1:
                 try:
                     o.playback = kani.playback(crate, o.name, "glob")
                 except Exception as ex:
